@@ -232,6 +232,121 @@ pub fn run(ctx: &Ctx) -> i32 {
         });
     }
 
+
+    // tile words decoded with the bitmasks the cel's own header declares
+    if ctx.wants_family("bitmasks") {
+        // (id mask, x-flip, y-flip, rotate)
+        let layouts: [(u32, u32, u32, u32); 6] = [
+            (0x1fff_ffff, 0x8000_0000, 0x4000_0000, 0x2000_0000),
+            (0x1fff_ffff, 0x2000_0000, 0x4000_0000, 0x8000_0000),
+            (0x0000_0003, 0x0000_0004, 0x0000_0008, 0x0000_0010),
+            (0x0000_00ff, 0x0000_0100, 0x0000_0200, 0x0000_0400),
+            (0x0000_ffff, 0x0001_0000, 0x0002_0000, 0x8000_0000),
+            (0xffff_ffff, 0, 0, 0),
+        ];
+        let mut cases: Vec<(usize, usize, u32, Vec<u32>)> = Vec::new();
+        for fi in 0..3usize {
+            for (li, (mid, mx, my, mr)) in layouts.iter().enumerate() {
+                for n in [2u32, 4] {
+                    // words: every id below n (within the id mask) combined with every subset of the flag bits,
+                    // and with one bit that no mask covers
+                    let mut words: Vec<u32> = Vec::new();
+                    let junk = !(mid | mx | my | mr);
+                    let junk_bit = if junk != 0 { 1u32 << junk.trailing_zeros() } else { 0 };
+                    let junk_hi = if junk != 0 { 1u32 << (31 - junk.leading_zeros()) } else { 0 };
+                    for id in 0..n.min(mid.saturating_add(1).max(1)) {
+                        if id & mid != id {
+                            continue;
+                        }
+                        for sub in 0..8u32 {
+                            let fl = (if sub & 1 != 0 { *mx } else { 0 }) | (if sub & 2 != 0 { *my } else { 0 }) | (if sub & 4 != 0 { *mr } else { 0 });
+                            words.push(id | fl);
+                            if junk_bit != 0 && sub % 3 == 0 {
+                                words.push(id | fl | junk_bit);
+                                words.push(id | fl | junk_hi);
+                            }
+                        }
+                    }
+                    words.sort();
+                    words.dedup();
+                    for a in &words {
+                        cases.push((fi, li, n, vec![*a]));
+                        for b in &words {
+                            cases.push((fi, li, n, vec![*a, *b]));
+                        }
+                    }
+                }
+            }
+        }
+        ctx.family("bitmasks", cases.len() as u64, "tilemap cels whose header declares one of 6 bitmask layouts (the standard one, the standard one with flip and rotate bits exchanged, 2-bit / 8-bit / 16-bit tile ids with the flag bits directly above, 32-bit ids without flag bits) x tilesets of 2 / 4 tiles x every 1x1 and 2x1 map over the words {id | any subset of that layout's flag bits | optionally one bit no mask covers}; 3 pixel formats; the tile id is the word masked with the cel's own id mask", true);
+        cases.par_iter().for_each(|(fi, li, n, words)| {
+            let case = || format!("fmt{} layout{} tiles={} words={:x?}", fi, li, n, words);
+            if !ctx.wants("bitmasks", &case) {
+                return;
+            }
+            let fmt = &fmts[*fi];
+            let mut f = gen::file(4, 2, fmt, &[10]);
+            if *fi == 2 {
+                f.frames[0].push(new_palette(0, pal_entries(10, 5)));
+            }
+            f.frames[0].push(Body::Tileset(tileset(1, *n, 2, 2, tile_pixels(fmt, *n, 2, 2, 4, (1, 9)), "ts")));
+            f.frames[0].push(Body::Layer(Layer::tilemap("m", 1)));
+            let mut c = tm_cel(0, 0, 0, 255, words.len() as u16, 1, words.clone());
+            if let Body::Cel(cc) = &mut c {
+                if let CelBody::Tilemap { mask_id, mask_xflip, mask_yflip, mask_rot, .. } = &mut cc.body {
+                    (*mask_id, *mask_xflip, *mask_yflip, *mask_rot) = layouts[*li];
+                }
+            }
+            f.frames[0].push(c);
+            let r = conform(ctx, "bitmasks", &case, &f, &want);
+            if let Some(o) = &r.obs {
+                if let Some(msg) = direct(o, 255) {
+                    ctx.violation(Violation { family: "bitmasks".into(), case: case(), sig: format!("direct:{}", sig_of(&msg)), detail: msg, bytes: Some(f.encode()), extra: json!({}) });
+                }
+            }
+        });
+    }
+
+
+    // tileset flag bits other than "tiles embedded" do not change lookups or images
+    if ctx.wants_family("tileset-flags") {
+        let extra_bits = [4u32, 8, 16, 0x100, 0x8000_0000];
+        let mut cases: Vec<(usize, u32, i16, i16)> = Vec::new();
+        for fi in 0..3usize {
+            for sub in 0..(1u32 << extra_bits.len()) {
+                let flags = 2 | extra_bits.iter().enumerate().filter(|(i, _)| sub >> i & 1 != 0).map(|(_, b)| *b).sum::<u32>();
+                for ox in -1..=1i16 {
+                    for oy in -1..=1i16 {
+                        cases.push((fi, flags, ox, oy));
+                    }
+                }
+            }
+        }
+        ctx.family("tileset-flags", cases.len() as u64, "tileset flags = embedded-tiles bit plus every subset of {4 (empty tile is id 0), 8, 16, 0x100, 0x80000000} x tile offset {-1,0,1}^2 x 3 pixel formats on a 3x3-tile canvas with a stored 2x1 map: lookups inside, outside and far outside the stored area, tilemap and tileset images compared with the model", true);
+        cases.par_iter().for_each(|(fi, flags, ox, oy)| {
+            let case = || format!("fmt{} flags={:#x} off=({},{})", fi, flags, ox, oy);
+            if !ctx.wants("tileset-flags", &case) {
+                return;
+            }
+            let fmt = &fmts[*fi];
+            let mut f = gen::file(6, 6, fmt, &[10]);
+            if *fi == 2 {
+                f.frames[0].push(new_palette(0, pal_entries(10, 5)));
+            }
+            let mut ts = tileset(1, 3, 2, 2, tile_pixels(fmt, 3, 2, 2, 4, (1, 9)), "ts");
+            ts.flags = *flags;
+            f.frames[0].push(Body::Tileset(ts));
+            f.frames[0].push(Body::Layer(Layer::tilemap("m", 1)));
+            f.frames[0].push(tm_cel(0, ox * 2, oy * 2, 255, 2, 1, vec![2, 1]));
+            let r = conform(ctx, "tileset-flags", &case, &f, &want);
+            if let Some(o) = &r.obs {
+                if let Some(msg) = direct(o, 255) {
+                    ctx.violation(Violation { family: "tileset-flags".into(), case: case(), sig: format!("direct:{}", sig_of(&msg)), detail: msg, bytes: Some(f.encode()), extra: json!({}) });
+                }
+            }
+        });
+    }
+
     // non-tilemap cels / layers: tilemap() must be None
     if ctx.wants_family("none") {
         let cases = [0, 1, 2, 3];
